@@ -6,7 +6,7 @@ import (
 )
 
 //verif:witness H_C02_routing routed rejected
-//verif:bound C02 quick real Refresh (toStorage, NewPlugin/inject via the reflect shim, tag-list parsing, duplicate detection, start-up, findLoggerForTag, rebinding): one registered tag of 2 (thorough: 2..3) one-byte segments (first byte a, others in {a,b}; optional leading underscore) plus the two built-in tags; two configured loggers each listing one pattern (literal or wildcard 'P_*'; for the first logger (thorough: both) also two malformed star shapes; P of 1..2 one-byte segments over {a,b}, optional leading underscore), optional root logger; optionally a second registered tag one segment deeper; every map iterated in insertion order or every map in reverse order (one choice per path)
+//verif:bound C02 quick real Refresh (toStorage, NewPlugin/inject via the reflect shim, tag-list parsing, duplicate detection, start-up, findLoggerForTag, rebinding): one registered tag of 2 (thorough: 2..3) one-byte segments (first byte a, others in {a,b}; optional leading underscore) plus the two built-in tags; two configured loggers each listing one pattern (literal or wildcard 'P_*'; for the first logger (thorough: both) also two malformed star shapes; P of 1..2 one-byte segments over {a,b}, optional leading underscore), optional root logger; optionally a second registered tag one segment deeper or a sibling of the first (same parent, other last segment); every map iterated in insertion order or every map in reverse order (one choice per path)
 //verif:bound C02 thorough as quick with P of 1..3 segments
 //verif:assume C02 the wildcard with empty prefix ('_*') is excluded: the statement's 'proper underscore-delimited prefix' does not settle whether the empty prefix counts
 //verif:assume C02 tag and pattern bytes range over the small alphabets stated in the bounds (chosen so that collisions and prefix relations are frequent); other bytes are outside the bound
@@ -116,9 +116,21 @@ func H_C02_routing() {
 	tag := RegisterTag(tagName)
 	zz := RegisterTagIfNew("_zz_top")
 	// a second registered tag one segment deeper (prefix relation between registered tags)
+	// ... or a sibling (same parent, other last segment): siblings must be resolved independently
 	deepName := tagName + "_a"
 	var deep *Tag
-	if nseg < 3 && vChoose("deeper", 2) == 1 {
+	second := 0
+	if nseg < 3 {
+		second = vChoose("deeper", 3)
+	} else if vChoose("deeper", 2) == 1 {
+		second = 2
+	}
+	switch second {
+	case 1:
+		deep = RegisterTag(deepName)
+	case 2:
+		last := tagName[len(tagName)-1]
+		deepName = tagName[:len(tagName)-1] + string([]byte{'a' + 'b' - last})
 		deep = RegisterTag(deepName)
 	}
 	vOpt("maporder", 3) // every map iterates in insertion order, or every map in reverse order
